@@ -30,7 +30,12 @@ def edit_new_iterate(pep, h):
     pep.set_performance_metric(0.25 * (x - 0.5 * g - h['points'][0]) ** 2 + 0.1 * pep.list_of_performance_metrics[0])
 
 
-EDITS = {'add_metric': edit_add_metric, 'add_constraint': edit_add_constraint, 'add_lmi': edit_add_lmi, 'new_iterate': edit_new_iterate}
+def edit_replace_metrics(pep, h):
+    """every metric replaced by another one (same number of metrics): the latest list is what the next solve optimises"""
+    pep.list_of_performance_metrics = [0.5 * m + 0.01 for m in pep.list_of_performance_metrics]
+
+
+EDITS = {'replace_metrics': edit_replace_metrics, 'add_metric': edit_add_metric, 'add_constraint': edit_add_constraint, 'add_lmi': edit_add_lmi, 'new_iterate': edit_new_iterate}
 
 
 def fingerprint(pep, wrapper):
